@@ -263,6 +263,43 @@ def r4_orientation(repo: Repo, rep):
             rep.undecided(R, nm.site(), nm.fq, "n·(q - o) evaluable for the first edge", verdict[1] if verdict else "no path")
             continue
         odd, txt = verdict
+        # an explicit orientation factor must be the sign of the determinant of the two spanning directions
+        wrong_factor = None
+        for f in ci.methods.values():
+            if f.name not in ("normal", "_get_normal_direction", "_add_local_normal_vector"):
+                continue
+            for c in ast.walk(f.node):
+                arg = None
+                if isinstance(c, ast.Call) and attr_chain(c.func) in ("torch.sign", "torch.sgn") and c.args:
+                    arg = c.args[0]
+                elif isinstance(c, ast.Call) and isinstance(c.func, ast.Attribute) and c.func.attr in ("sign", "sgn") and not c.args and not (attr_chain(c.func) or "").startswith("torch."):
+                    arg = c.func.value
+                if arg is None:
+                    continue
+                from ..util import deref, single_defs
+                arg = deref(arg, single_defs(f.node))
+                free = {x.id for x in ast.walk(arg) if isinstance(x, ast.Name)} - {"torch"}
+                if not free or not free <= {"dir_1", "dir_2"}:
+                    continue
+
+                def atom2(x, ev):
+                    if isinstance(x, ast.Name) and x.id == "dir_1":
+                        return d1
+                    if isinstance(x, ast.Name) and x.id == "dir_2":
+                        return other
+                    return None
+                try:
+                    val = SymEval(atom2).ev(arg)
+                    if isinstance(val, Vec) and len(val) == 1:
+                        val = val.c[0]
+                    if not (val == det or val == -det):
+                        wrong_factor = (f, c, repr(val))
+                except (NotSym, NotPoly, AttributeError):
+                    pass
+        if wrong_factor is not None:
+            f, c, txt2 = wrong_factor
+            rep.violation(R, f.site(c), f.fq, "an orientation factor is sign(det(dir_1, dir_2)) = sign(d1.x*d2.y - d1.y*d2.x)", f"sign of {txt2}", f"orientation factor {txt2}")
+            continue
         if odd and not handled:
             rep.violation(R, nm.site(), nm.fq, "n·(q - o) keeps one sign for clockwise and counter-clockwise corners",
                           f"|d|·n·(q - o) = {txt} = ±det(p - o, q - o): changes sign with the vertex orientation, and no orientation factor / vertex re-ordering is applied",
@@ -507,9 +544,10 @@ def r8_walk_from_zero(repo: Repo, rep):
                     rep.undecided(R, fi.site(), fi.fq, "the side walk helper is called", "no call of _transform_interval_to_boundary")
                     break
                 w = walks[0]
-                bufs = [a for a in w.args if isinstance(a, ast.Call) and attr_chain(a.func) in ("torch.zeros", "torch.zeros_like")]
-                others = [dump(a)[:50] for a in w.args if isinstance(a, ast.Call) and attr_chain(a.func) not in ("torch.zeros", "torch.zeros_like", "torch.rand") and "origin" in dump(a)]
-                rep.check(R, len(bufs) == 1 and not others, fi.site(), fi.fq, "the walk accumulates into torch.zeros(..) (origin not yet added)", f"buffer arguments {[dump(a)[:50] for a in w.args][-2:]}", "walk buffer")
+                wargs = list(w.args) + [k.value for k in w.keywords]
+                bufs = [a for a in wargs if isinstance(a, ast.Call) and attr_chain(a.func) in ("torch.zeros", "torch.zeros_like")]
+                others = [dump(a)[:50] for a in wargs if isinstance(a, ast.Call) and attr_chain(a.func) not in ("torch.zeros", "torch.zeros_like", "torch.rand") and "origin" in dump(a)]
+                rep.check(R, len(bufs) == 1 and not others, fi.site(), fi.fq, "the walk accumulates into torch.zeros(..) (origin not yet added)", f"buffer arguments {[dump(a)[:50] for a in wargs][-2:]}", "walk buffer")
                 rep.check(R, "origin" in dump(p.ret) or "_construct_" in dump(p.ret), fi.site(p.ret_node), fi.fq, "the origin is added to the finished walk", dump(p.ret)[:100], "origin added last")
                 break
 
